@@ -431,6 +431,45 @@ theorem isInterleaveB_sound [DecidableEq α] (hs : List (List α)) (σ : List α
       exact Interleave.step (ih _ h)
     · cases h
 
+theorem popAt_some [DecidableEq α] {x : α} {i : Nat} {hs hs' : List (List α)} (h : popAt x i hs = some hs') :
+    ∃ p t q, hs = p ++ (x :: t) :: q ∧ hs' = p ++ t :: q := by
+  induction hs generalizing i hs' with
+  | nil => simp [popAt] at h
+  | cons a hs ih =>
+    cases i with
+    | zero =>
+      cases a with
+      | nil => simp [popAt] at h
+      | cons y t =>
+        simp only [popAt] at h
+        split at h
+        · rename_i hy
+          subst hy
+          simp only [Option.some.injEq] at h
+          exact ⟨[], t, hs, rfl, h.symm⟩
+        · cases h
+    | succ i =>
+      simp only [popAt, Option.map_eq_some_iff] at h
+      obtain ⟨r, hr, rfl⟩ := h
+      obtain ⟨p, t, q, rfl, rfl⟩ := ih hr
+      exact ⟨a :: p, t, q, rfl, rfl⟩
+
+/-- the driver's thread-indexed interleaving test is sound -/
+theorem isInterleaveIdxB_sound [DecidableEq α] (hs : List (List α)) (σ : List (Nat × α))
+    (h : isInterleaveIdxB hs σ = true) : Interleave hs (σ.map (·.2)) := by
+  induction σ generalizing hs with
+  | nil =>
+    simp only [isInterleaveIdxB, List.all_eq_true, List.isEmpty_iff] at h
+    exact Interleave.done h
+  | cons ix σ ih =>
+    obtain ⟨i, x⟩ := ix
+    simp only [isInterleaveIdxB] at h
+    split at h
+    · rename_i hs' hp
+      obtain ⟨p, t, q, rfl, rfl⟩ := popAt_some hp
+      exact Interleave.step (ih _ h)
+    · cases h
+
 end Interleave
 
 /-! ### the property for sending threads -/
